@@ -652,3 +652,206 @@ def make_key_post(prop, variant):
 def make_key_units(prop):
     return [Unit(f'{prop}.make_key[{v}]', REPO_PY, 'Repository._make_key', make_key_setup(v), make_key_post(prop, v), prop=prop)
             for v in ('none', 'empty', 'user_kdf_blake2b', 'private_given')]
+
+
+# ------------------------------------------------------------------ _make_config / _instantiate_config: settings -> stored config -> adapters
+def _cfg_env(b):
+    me = shared.repo_self(b, props=False, cache=False)
+    for nm in ('DEFAULT_HASHER_NAME', 'DEFAULT_CHUNKER_NAME', 'DEFAULT_CIPHER_NAME'):
+        me._attrs[nm] = source.class_attr(REPO_PY, 'Repository', nm).value
+    b.me = me
+    types = {}
+    counter = {'n': 0}
+
+    def type_for(name):
+        if name not in types:
+            def ctor(interp, st, args, kwargs, name=name):
+                counter['n'] += 1
+                st.emit('adapter_instance', name=name, kwargs=dict(kwargs), nargs=len(args))
+                return iter([(st, Obj(f'{name}#{counter["n"]}', adapter_name=name))])
+            t = Model(name, ctor)
+            t.attrs = {'__name__': name}
+            types[name] = t
+        return types[name]
+
+    def from_config(interp, st, args, kwargs):
+        kw = dict(kwargs)
+        name = kw.pop('name', None)
+        st.emit('from_config', name=name, kwargs=dict(kw), nargs=len(args))
+        if not isinstance(name, str):
+            raise sym.Unsupported('adapter name not concrete')
+        # the adapter module fills in the defaults of the named adapter: modelled as "the user's parameters plus a marker"
+        yield st, (type_for(name), st.new_py('dict', dict(kw, **{'<defaults of %s>' % name: True})))
+
+    b.bind('adapters', Obj('adapters', from_config=Model('from_config', from_config)))
+    b.type_for = type_for
+
+
+def make_config_setup(variant):
+    def setup(b):
+        _cfg_env(b)
+        mk = b.st.new_py
+        if variant == 'none':
+            b.bind('settings', None)
+        elif variant == 'plain':
+            b.bind('settings', mk('dict', {'hashing': mk('dict', {'name': 'sha2', 'bits': 256}), 'chunking': mk('dict', {'min_length': 8, 'max_length': 64}),
+                                            'encryption': None}))
+        else:
+            b.bind('settings', mk('dict', {'encryption': mk('dict', {'cipher': mk('dict', {'name': 'chacha20_poly1305'}), 'kdf': mk('dict', {'n': 4})})}))
+    return setup
+
+
+def make_config_post(prop, variant):
+    def post(res):
+        me = res.builder.me
+        for p in res.paths:
+            if p.kind != 'return':
+                res.oblige(p, f'{prop}.make_config[{variant}].total', z3.BoolVal(False))
+                continue
+            cfg = res.interp.deref(p.st, ops.resolve(p.st, p.value))
+            fc = p.events('from_config')
+            want_enc = variant != 'plain'
+            ok = isinstance(cfg, dict) and set(cfg) == ({'hashing', 'chunking', 'encryption'} if want_enc else {'hashing', 'chunking'})
+            # `encryption: None` means an UNENCRYPTED repository: no encryption section at all; otherwise exactly a cipher section
+            res.oblige(p, f'{prop}.make_config[{variant}].sections', z3.BoolVal(bool(ok)))
+            if not ok:
+                continue
+            sec = lambda d: res.interp.deref(p.st, ops.resolve(p.st, d))
+            h, c = sec(cfg['hashing']), sec(cfg['chunking'])
+            exp_h = {'none': me.get('DEFAULT_HASHER_NAME'), 'plain': 'sha2', 'encrypted': me.get('DEFAULT_HASHER_NAME')}[variant]
+            exp_c = me.get('DEFAULT_CHUNKER_NAME')
+            good = (isinstance(h, dict) and h.get('name') == exp_h and ('<defaults of %s>' % exp_h) in h
+                    and isinstance(c, dict) and c.get('name') == exp_c and ('<defaults of %s>' % exp_c) in c)
+            if variant == 'plain':
+                good = good and h.get('bits') == 256 and c.get('min_length') == 8 and c.get('max_length') == 64
+            if want_enc:
+                e = sec(cfg['encryption'])
+                ci = sec(e['cipher']) if isinstance(e, dict) and set(e) == {'cipher'} else None
+                exp_ci = 'chacha20_poly1305' if variant == 'encrypted' else me.get('DEFAULT_CIPHER_NAME')
+                # the stored config holds the cipher only: the KDF belongs to the key, not to the repository
+                good = good and isinstance(ci, dict) and ci.get('name') == exp_ci and ('<defaults of %s>' % exp_ci) in ci
+            # each section is the named adapter's full parameter set (user values over the adapter's defaults) plus its name;
+            # a missing name means the documented default adapter
+            res.oblige(p, f'{prop}.make_config[{variant}].sections_are_adapter_parameters_plus_name', z3.BoolVal(bool(good)))
+            res.oblige(p, f'{prop}.make_config[{variant}].one_adapter_lookup_per_section', z3.BoolVal(len(fc) == (3 if want_enc else 2)))
+    return post
+
+
+def instantiate_config_setup(variant):
+    def setup(b):
+        _cfg_env(b)
+        mk = b.st.new_py
+        cfg = {'hashing': mk('dict', {'name': 'sha3', 'bits': 256}), 'chunking': mk('dict', {'name': 'gclmulchunker', 'min_length': 8, 'max_length': 64})}
+        if variant == 'encrypted':
+            cfg['encryption'] = mk('dict', {'cipher': mk('dict', {'name': 'aes_gcm', 'key_bits': 128})})
+        b.bind('config', mk('dict', cfg))
+    return setup
+
+
+def instantiate_config_post(prop, variant):
+    def post(res):
+        for p in res.paths:
+            if p.kind != 'return':
+                res.oblige(p, f'{prop}.instantiate_config[{variant}].total', z3.BoolVal(False))
+                continue
+            out = res.interp.deref(p.st, ops.resolve(p.st, p.value))
+            ok = isinstance(out, dict) and set(out) == {'chunker', 'hasher', 'cipher'}
+            if ok:
+                nm = lambda v: getattr(v, '_attrs', {}).get('adapter_name') if isinstance(v, Obj) else None
+                ok = nm(out['chunker']) == 'gclmulchunker' and nm(out['hasher']) == 'sha3'
+                # no encryption section <=> no cipher (RepositoryProps.encrypted is `cipher is not None`)
+                ok = ok and ((nm(out['cipher']) == 'aes_gcm') if variant == 'encrypted' else out['cipher'] is None)
+                inst = {e.data['name']: e.data['kwargs'] for e in p.events('adapter_instance')}
+                ok = ok and inst.get('sha3', {}).get('bits') == 256 and inst.get('gclmulchunker', {}).get('min_length') == 8
+                if variant == 'encrypted':
+                    ok = ok and inst.get('aes_gcm', {}).get('key_bits') == 128
+            res.oblige(p, f'{prop}.instantiate_config[{variant}].adapters_built_from_their_own_sections', z3.BoolVal(bool(ok)))
+    return post
+
+
+def config_units(prop):
+    return [Unit(f'{prop}.make_config[{v}]', REPO_PY, 'Repository._make_config', make_config_setup(v), make_config_post(prop, v), prop=prop)
+            for v in ('none', 'plain', 'encrypted')] + [
+            Unit(f'{prop}.instantiate_config[{v}]', REPO_PY, 'Repository._instantiate_config', instantiate_config_setup(v),
+                 instantiate_config_post(prop, v), prop=prop) for v in ('plain', 'encrypted')]
+
+
+# ------------------------------------------------------------------ settings validation: which dictionaries are accepted at all
+_VALIDATE_CASES = {
+    # name: (object, accepted?)
+    'ok': (lambda mk: {'hashing': mk('dict', {}), 'encryption': None}, True),
+    'empty': (lambda mk: {}, True),
+    'extra_key': (lambda mk: {'hashing': mk('dict', {}), 'hashin': mk('dict', {})}, False),
+    'wrong_type': (lambda mk: {'hashing': mk('list', [])}, False),
+    'none_where_mapping_required': (lambda mk: {'hashing': None}, False),
+    'scalar_for_optional': (lambda mk: {'encryption': 1}, False),
+}
+
+
+def validate_settings_setup(case):
+    def setup(b):
+        b.me = shared.repo_self(b, props=False, cache=False)
+        mk = b.st.new_py
+        M = models.TypeObj('Mapping')
+        M.attrs = {'__name__': 'Mapping'}
+        N = models.TypeObj('NoneType')
+        N.attrs = {'__name__': 'NoneType'}
+        b.bind('schema', mk('dict', {'hashing': M, 'chunking': M, 'encryption': (M, N)}))
+        b.bind('obj', mk('dict', _VALIDATE_CASES[case][0](mk)))
+    return setup
+
+
+def validate_settings_post(prop, case):
+    def post(res):
+        accepted = _VALIDATE_CASES[case][1]
+        for p in res.paths:
+            # accepted <=> every key is in the schema and every value is an instance of the schema's type(s); a rejection is the
+            # user-facing ReplicatError (not a KeyError/TypeError surfacing later, after the backend has been touched)
+            good = (p.kind in ('return', 'normal')) if accepted else (p.kind == 'raise' and p.value.cls == 'ReplicatError')
+            res.oblige(p, f'{prop}.validate_settings[{case}].accepts_exactly_schema_conforming', z3.BoolVal(bool(good)))
+    return post
+
+
+def validate_wrappers_setup(which, variant):
+    def setup(b):
+        me = shared.repo_self(b, props=False, cache=False)
+        b.me = me
+        mk = b.st.new_py
+
+        def validate(interp, st, args, kwargs):
+            schema = interp.deref(st, ops.resolve(st, args[0]))
+            st.emit('validate', keys=sorted(schema) if isinstance(schema, dict) else None, obj=args[1])
+            yield st, None
+        me._attrs['_validate_settings'] = Model('_validate_settings', validate)
+        enc = None if variant == 'unencrypted' else mk('dict', {'kdf': mk('dict', {})})
+        b.enc = enc
+        b.settings = mk('dict', {'encryption': enc})
+        b.bind('settings', b.settings)
+    return setup
+
+
+def validate_wrappers_post(prop, which, variant):
+    def post(res):
+        b = res.builder
+        for p in res.paths:
+            evs = p.events('validate')
+            if which == 'init':
+                want = [(['chunking', 'encryption', 'hashing'], b.settings)] + ([(['cipher', 'kdf'], b.enc)] if variant == 'encrypted' else [])
+            else:
+                want = [(['encryption'], b.settings), (['kdf'], b.enc)]
+            got = [(e.data['keys'], e.data['obj']) for e in evs]
+            ok = p.kind in ('return', 'normal') and len(got) == len(want) and all(g[0] == w[0] and g[1] is w[1] or (g[0] == w[0] and ops.resolve(p.st, g[1]) is ops.resolve(p.st, w[1])) for g, w in zip(got, want))
+            # both levels of the settings are validated, each against the documented key set, and the nested one is the
+            # `encryption` section itself
+            res.oblige(p, f'{prop}.validate_{which}_settings[{variant}].both_levels_against_documented_keys', z3.BoolVal(bool(ok)))
+    return post
+
+
+def validate_units(prop):
+    out = [Unit(f'{prop}.validate_settings[{c}]', REPO_PY, 'Repository._validate_settings', validate_settings_setup(c), validate_settings_post(prop, c), prop=prop)
+           for c in _VALIDATE_CASES]
+    out += [Unit(f'{prop}.validate_init_settings[{v}]', REPO_PY, 'Repository._validate_init_settings', validate_wrappers_setup('init', v),
+                 validate_wrappers_post(prop, 'init', v), prop=prop) for v in ('unencrypted', 'encrypted')]
+    out += [Unit(f'{prop}.validate_add_key_settings', REPO_PY, 'Repository._validate_add_key_settings', validate_wrappers_setup('add_key', 'encrypted'),
+                 validate_wrappers_post(prop, 'add_key', 'encrypted'), prop=prop)]
+    return out
